@@ -34,9 +34,11 @@ DEVS = ("LenientNumber", "MissingComma", "PlusInUnicodeEscape")
 SENS = [("MC_Json8259_dev_%s.cfg" % d, d) for d in DEVS] + \
        [("MC_Json8259_bug_%s.cfg" % b, "Bug" + b) for b in
         ("ArrayTrailingComma", "DepthOffByOne", "ControlInString", "LiteralPrefix", "MemberOrder",
-         "SerRawControl", "SerNoQuoteEscape", "SerPrettyComma", "GetMutNoInsert")]
+         "SerRawControl", "SerNoQuoteEscape", "SerPrettyComma", "GetMutNoInsert",
+         "PairNoOffset", "SerBoundary1F", "SerPrettyEmptyPop")]
 MACHINE_ACTIONS = ["M_Extend", "M_Start", "PV_Enter", "Str_Step", "Lit_Scan", "Ret", "Arr_Loop", "Arr_After", "Obj_Loop", "Obj_Colon", "Eof"]
-MACHINE_SENS = [("MC_JsonMachine_dev_%s.cfg" % d, d) for d in DEVS] + [("MC_JsonMachine_bug_DepthOffByOne.cfg", "BugDepthOffByOne")]
+MACHINE_SENS = [("MC_JsonMachine_dev_%s.cfg" % d, d) for d in DEVS] + [("MC_JsonMachine_bug_DepthOffByOne.cfg", "BugDepthOffByOne"),
+                                                                          ("MC_JsonMachine_bug_DepthLeak.cfg", "BugDepthLeak")]
 CHUNK = 30000
 
 
@@ -63,9 +65,29 @@ def tlc_space(cfg, workers, wid):
     return r
 
 
+def hang_of(p):
+    """The harness ends with code 3 when a call into the code under test did not return within 120 s (a finding,
+    not a tool error): the last line says which call and with what input."""
+    if p.returncode != 3:
+        return None
+    h = [x for x in jsonl(p.stdout) if x.get("k") == "hang"]
+    return h[-1] if h else {"k": "hang", "call": "?", "in": [], "seconds": 120}
+
+
+def report_hang(ctx, h, where):
+    ctx.violation("%s: %s did not return within %s s on %s" % (where, h["call"], h["seconds"], json.dumps(text_of(h["in"])[:300], ensure_ascii=False)),
+                  {"kind": "json-docs", "texts": [h["in"]], "hang": h})
+
+
+def strip_hang(text):
+    return "\n".join(l for l in text.split("\n") if '"k":"hang"' not in l)
+
+
 def enum_replay(jb, r, limit):
     data = "\n".join(json.dumps(x, separators=(",", ":")) for x in r.prints) + "\n"
     p = run_bin(jb, ["enum", str(limit)], stdin_data=data, timeout=2400)
+    if hang_of(p):
+        return {"hang": hang_of(p)}
     res = [x for x in jsonl(p.stdout) if x.get("summary")]
     if p.returncode != 0 or not res:
         raise ToolError("json enum failed rc=%s (%d vectors): stderr=%s stdout=%s" % (p.returncode, len(r.prints), p.stderr[-1500:], p.stdout[:600]))
@@ -115,9 +137,11 @@ def attribute(ctx, jb, limit, texts):
     wd = vlib.workdir("C13")
     data = "\n".join(json.dumps({"s": [ord(c) for c in t]}) for t in texts) + "\n"
     p = run_bin(jb, ["log", str(limit)], stdin_data=data)
+    if p.returncode != 0:
+        return out
     path = os.path.join(wd, "attr.ndjson")
     with open(path, "w") as f:
-        f.write(p.stdout)
+        f.write("\n".join(l for l in p.stdout.split("\n") if '"k":"doc"' in l) + "\n")
     try:
         for d in DEVS:
             _, rej, _ = trace_validate(path, "Trace_Json8259_dev_%s.cfg" % d, wid="c13a")
@@ -183,31 +207,41 @@ def run(tier, replay):
     side_spaces = [("number-like strings", "MC_Json8259_num_%s.cfg" % suffix),
                    ("member-level objects", "MC_Json8259_obj_%s.cfg" % suffix),
                    ("escape tokens", "MC_Json8259_esc_%s.cfg" % suffix),
+                   ("surrogate escapes", "MC_Json8259_sur_%s.cfg" % suffix),
                    ("serialiser atoms", "MC_Json8259_ser_%s.cfg" % suffix)]
 
     # the harness logs (cheap) first
     n_docs = 3000 if thorough else 220
     docs_path = os.path.join(wd, "docs.ndjson")
     p = run_bin(jb, ["docs", str(n_docs), str(limit), "200"])
-    if p.returncode != 0:
+    if hang_of(p):
+        report_hang(ctx, hang_of(p), "documents")
+    elif p.returncode != 0:
         raise ToolError("json docs failed: " + p.stderr[-1000:])
     with open(docs_path, "w") as f:
-        f.write(p.stdout)
-    docs_sum = [x for x in jsonl(p.stderr) if x.get("summary")][0]
+        f.write(strip_hang(p.stdout))
+    docs_sum = ([x for x in jsonl(p.stderr) if x.get("summary")] or [{"families": [], "grammar_docs": 0}])[0]
     n_ser, per, every = (20000, 3, 2) if thorough else (10000, 2, 4)
     ser_path = os.path.join(wd, "ser.ndjson")
     p = run_bin(jb, ["ser", str(n_ser), str(per), str(every)])
-    if p.returncode != 0:
+    if hang_of(p):
+        h = hang_of(p)
+        ctx.violation("serialiser: %s did not return within %s s on the value %s" % (h["call"], h["seconds"], text_of(h["in"])[:300]),
+                      {"kind": "json-ser", "seed": ctx.seed, "n": n_ser, "per": per, "every": every, "hang": h})
+    elif p.returncode != 0:
         raise ToolError("json ser failed: " + p.stderr[-1000:])
     with open(ser_path, "w") as f:
-        f.write(p.stdout)
-    ser_sum = [x for x in jsonl(p.stderr) if x.get("summary")][0]
+        f.write(strip_hang(p.stdout))
+    ser_sum = ([x for x in jsonl(p.stderr) if x.get("summary")] or
+               [{"values": 0, "outputs": 0, "reparse_not_equal": 0, "equal_but_not_bit_identical": 0, "variants": {}}])[0]
     idx_path = os.path.join(wd, "idx.ndjson")
     p = run_bin(jb, ["idx", str(2000 if thorough else 400)])
-    if p.returncode != 0:
+    if hang_of(p):
+        report_hang(ctx, hang_of(p), "indexing run")
+    elif p.returncode != 0:
         raise ToolError("json idx failed: " + p.stderr[-1000:])
     with open(idx_path, "w") as f:
-        f.write(p.stdout)
+        f.write(strip_hang(p.stdout))
 
     # TLC lanes: pruned spaces + vector replay (2 workers) || complete spaces with the lemma (1-2) || sensitivity + trace
     # validation (<= 2) || state machine (1) || its coverage run (1): at most 8 workers
@@ -216,7 +250,7 @@ def run(tier, replay):
 
         def lane_full():
             return [(cfg, run_tlc("MC_Json8259.tla", cfg, D, workers=2 if thorough else 1, timeout=2400, work_id="c13c", heap="6g"))
-                    for cfg in ["MC_Json8259_full_%s.cfg" % suffix] + ["MC_Json8259_full_%s.cfg" % x for x in ("num", "obj", "esc", "ser")]]
+                    for cfg in ["MC_Json8259_full_%s.cfg" % suffix] + ["MC_Json8259_full_%s.cfg" % x for x in ("num", "obj", "esc", "sur", "ser")]]
 
         def lane_cover():
             # action coverage of the state machine (-coverage costs ~1 CPU-minute of cost-model construction, own lane)
@@ -272,6 +306,9 @@ def run(tier, replay):
         ctx.add_tlc("%s: model of the code vs RFC 8259 on every viable string (dead prefixes pruned), accepted set printed (%s)" % (name, cfg), r)
         ctx.require_tlc_ok(cfg, r)
         if s is None:
+            continue
+        if "hang" in s:
+            report_hang(ctx, s["hang"], name)
             continue
         acc = len([x for x in r.prints if isinstance(x, dict) and "t" in x])
         if acc == 0 or s["accepted_by_spec"] != acc or s["accepted_seen"] != acc:
@@ -334,8 +371,16 @@ def run(tier, replay):
     for l in ser_lines[5:6]:
         rec = json.loads(l)
         ctx.sample({"serialised": text_of(rec["out"])[:200], "indent": rec["ind"], "reparsed_equal": rec["re"]})
-    if doc_rej:
-        recs = [(json.loads(doc_lines[i]), why) for i, why in doc_rej]
+    chain_rej = [(i, why) for i, why in doc_rej if '"k":"ser"' in doc_lines[i]]
+    doc_only_rej = [(i, why) for i, why in doc_rej if '"k":"ser"' not in doc_lines[i]]
+    if chain_rej:
+        recs = [(json.loads(doc_lines[i]), why) for i, why in chain_rej]
+        r0, why0 = recs[0]
+        ctx.violation("parse -> serialise: %s; text %s gives output %s (indent %s); %d such record(s)" % (
+            why0, json.dumps(text_of(r0["src"])[:120], ensure_ascii=False), json.dumps(text_of(r0["out"])[:160], ensure_ascii=False), r0["ind"], len(recs)),
+            {"kind": "json-docs", "texts": [r["src"] for r, _ in recs][:50], "why": [w for _, w in recs][:50], "records": [r for r, _ in recs][:3]})
+    if doc_only_rej:
+        recs = [(json.loads(doc_lines[i]), why) for i, why in doc_only_rej]
         texts = [text_of(r["in"]) for r, _ in recs]
         attr = attribute(ctx, jb, limit, texts)
         groups = {}
@@ -406,7 +451,7 @@ def selftest(ctx, jb, limit, r_num, base_mismatches, doc_lines, doc_bad, ser_lin
     if s["mismatches"] < base_mismatches + 2 or (base_mismatches == 0 and not seen):
         raise ToolError("self-test: corrupted vector file was not rejected by the harness")
     # (b) traces: flip `ok` of an accepted document, break one serialiser output -> TLC must reject exactly those
-    docs = [json.loads(l) for i, l in enumerate(doc_lines[:600]) if i not in doc_bad][:400]
+    docs = [json.loads(l) for i, l in enumerate(doc_lines[:600]) if i not in doc_bad and '"k":"doc"' in l][:400]
     k = next(i for i, d in enumerate(docs) if d["ok"] and len(d["in"]) > 3 and not any(n.get("inf") for n in d["v"]))
     docs[k]["ok"] = False
     sers = [json.loads(l) for i, l in enumerate(ser_lines[:400]) if i not in ser_bad][:200]
@@ -439,6 +484,9 @@ def do_replay(ctx, jb, limit, path):
         p = run_bin(jb, ["ser", str(case["n"]), str(case["per"]), str(case["every"])], env={"VERIF_SEED": case["seed"]})
     else:
         raise ToolError("unknown replay kind %r" % kind)
+    if hang_of(p):
+        report_hang(ctx, hang_of(p), "replay")
+        return ctx.finish()
     if p.returncode != 0:
         raise ToolError("replay: harness failed: " + p.stderr[-800:])
     with open(log, "w") as f:
